@@ -9,7 +9,8 @@ Definition sumN (l : list N) : N := fold_right N.add 0 l.
 Definition direct_tcp (shape : N) (ls ts : list N) : list N :=
   let L := sumN ls in let T := sumN ts in
   match shape with
-  | 0 | 1 | 2 => [T; 1; 1; 4 + L; 1; 1]     (* both directions complete, both ends see a clean EOF *)
+  | 0 | 1 | 2 | 8 | 9 => [T; 1; 1; 4 + L; 1; 1]     (* both directions complete, both ends see a clean EOF
+                                                   (8, 9: the late direction while the connection is still open) *)
   | 3 => [T; 1; 1; 4; 1; 0]                 (* target wrote and closed: local gets it all, then EOF *)
   | 4 => [0; 1; 0; 4 + L; 1; 1]             (* local wrote and closed: target gets it all, then EOF *)
   | 7 => [0; 1; 1; 4 + 3145728; 1; 1]       (* slow, half-closed target: the whole 3 MB upload arrives, then EOF *)
